@@ -1,6 +1,7 @@
 package main
 
 import (
+	"os"
 	"fmt"
 	"go/types"
 	"math"
@@ -344,6 +345,9 @@ func (u *Unit) doAppend(st *State, fr *Frame, in *ssa.Call, et types.Type, s Sli
 		return []Outcome{{st, s}}, true
 	}
 	nl := IntAdd(s.Len, aLen)
+	if os.Getenv("GOVC_APPEND") != "" {
+		fmt.Fprintf(os.Stderr, "  [append] %s: R=%v fresh=%v concrete=%v input=%v len=%v cap=%v flat=%v\n", u.where(fr, in), s.R != nil, s.R != nil && s.R.fresh, s.R != nil && s.R.concrete, s.R != nil && s.R.input, s.Len, s.Cap, flatElem(et))
+	}
 	if !u.rangeOK(st, fr, nl, in) {
 		return nil, false
 	}
@@ -352,6 +356,11 @@ func (u *Unit) doAppend(st *State, fr *Frame, in *ssa.Call, et types.Type, s Sli
 	// concrete-list mode (elements with references, constant lengths)
 	if (s.R == nil || s.R.concrete) && !flatElem(et) && s.Len.C != nil && aLen.C != nil && (aR == nil || aR.concrete) {
 		n, k := int(s.Len.C.Int64()), int(aLen.C.Int64())
+		if fits := IntLe(nl, s.Cap); u.specMode == 0 && !(s.R != nil && s.R.fresh) && !fits.IsFalse() {
+			// the list is (a re-slice of) an array this activation did not allocate — e.g. (*c)[:0] of the caller's
+			// []Packet: an append that fits its capacity writes into that array
+			u.oblige(st, fmt.Sprintf("%s#frame:%s", fnKey(u.fn), u.where(fr, in)), "frame", []string{"C18"}, Not(fits), "")
+		}
 		r := u.newRegion(et, "append")
 		r.fresh, r.concrete = true, true
 		el := make([]Value, 0, n+k)
@@ -383,6 +392,11 @@ func (u *Unit) doAppend(st *State, fr *Frame, in *ssa.Call, et types.Type, s Sli
 	}
 	var outs []Outcome
 	fits := IntLe(nl, s.Cap)
+	if s.R == nil && u.specMode == 0 && !fits.IsFalse() {
+		// a slice whose backing array is not modelled (elements with references, e.g. the caller's []Packet): an
+		// append that fits its capacity would write into that array, which this activation does not own
+		u.oblige(st, fmt.Sprintf("%s#frame:%s", fnKey(u.fn), u.where(fr, in)), "frame", []string{"C18"}, Not(fits), "")
+	}
 	// case 1: in place
 	if s.R != nil && !fits.IsFalse() {
 		s1 := st
